@@ -289,6 +289,47 @@ def check_canonicalize(space, e, part):
         part.fail("canonicalize:wrong", case, {"result": show(r), "env": space.scope.env(i), "expected": exp[i], "got": got[i]})
 
 
+def check_canonicalize_threaded(space, e1, e2, part):
+    """canonicalize e1, then e2 with the returned map and counter: one consistent, injective renaming of both"""
+    part.count("transitions")
+    part.count("canonicalize_threaded_calls")
+    case = f"w={space.w}|canonicalize-threaded|{show(e1)}|then|{show(e2)}"
+    try:
+        vm, ctr, r1 = e1.canonicalize()
+        vm, ctr, r2 = e2.canonicalize(var_map=vm, counter=ctr)
+    except ClaripyError as ex:
+        if type(ex).__name__ == "ClaripyZeroDivisionError":
+            return
+        part.fail(f"canonicalize:raised:{type(ex).__name__}", case, str(ex)[:160])
+        return
+    except Exception as ex:  # noqa: BLE001
+        part.fail(f"canonicalize:raised:{type(ex).__name__}", case, str(ex)[:160])
+        return
+    by_hash = {v.hash(): v for v in space.leaves()}
+    names = {}
+    for h, cv in vm.items():
+        if h in by_hash:
+            names.setdefault(cv.args[0], []).append(by_hash[h].args[0])
+    if any(len(v) > 1 for v in names.values()):
+        part.fail("canonicalize-threaded:map-not-injective", case, {"map": {k: v for k, v in names.items()}})
+        return
+    tabs = {n: (space.scope.field[o[0]][1], space.scope.var_table(o[0])) for n, o in names.items()}
+    for n, (off, w) in space.scope.field.items():
+        tabs.setdefault(n, (w, space.scope.var_table(n)))
+    ts = shadow.TableScope(tabs)
+    for e, r in ((e1, r1), (e2, r2)):
+        try:
+            got = Den(ts)(r)
+            exp = space.den(e)
+        except DenError as ex:
+            part.fail("canonicalize-threaded:uninterpretable", case, str(ex)[:160])
+            return
+        if got != exp:
+            i = next(k for k, (a, b) in enumerate(zip(exp, got)) if a != b)
+            part.fail("canonicalize-threaded:wrong", case, {"result": show(r), "env": space.scope.env(i), "expected": exp[i], "got": got[i]})
+            return
+
+
 def check_ite_relocation(space, e, part):
     try:
         exp = space.den(e)
@@ -446,7 +487,21 @@ def check_bytes(part):
         den = Den(sc)
         x = claripy.BVS("bx", w, explicit_name=True)
         y = claripy.BVS("by", w, explicit_name=True)
-        for lab, e in (("x", x), ("x+y", x + y), ("If", claripy.If(x == y, x, ~y)), ("rev", claripy.Reverse(x) if w % 8 == 0 else x ^ y), ("cat", claripy.Concat(x, y)[w - 1 : 0])):
+        inputs = [("x", x), ("x+y", x + y), ("If", claripy.If(x == y, x, ~y)), ("rev", claripy.Reverse(x) if w % 8 == 0 else x ^ y), ("cat", claripy.Concat(x, y)[w - 1 : 0])]
+        # Concats of unevenly sized pieces whose operand count equals w / bits for some chop width
+        for n in (2, 3, 4, 6):
+            if w % n or w // n < 2:
+                continue
+            sizes = [w // n] * n
+            sizes[0] -= 1
+            sizes[-1] += 1
+            pcs, hi = [], w
+            for k, sz in enumerate(sizes):
+                src = x if k % 2 == 0 else y
+                pcs.append(src[hi - 1 : hi - sz])
+                hi -= sz
+            inputs.append((f"ucat{n}", claripy.Concat(*pcs)))
+        for lab, e in inputs:
             et = den(e)
             for bits in [b for b in (1, 2, 4, 8, w) if w % b == 0 and w // b <= 24]:
                 part.count("transitions")
@@ -515,10 +570,15 @@ def _job(item):
         part.sample({"w": w, "identical_pool": len(ident_pool)}, limit=1)
         return part.dump()
     mine = pool[lo::step]
+    bx, by = space.bvs[0], space.bvs[1]
+    partners = [by, bx * by, by + 1, claripy.If(claripy.ULT(bx, by), by, bx ^ 1)]
     for e in mine:
         part.count("states")
         check_replace(space, e, part, "")
         check_canonicalize(space, e, part)
+        for q in partners:
+            check_canonicalize_threaded(space, e, q, part)
+            check_canonicalize_threaded(space, q, e, part)
         check_ite_relocation(space, e, part)
     if mine:
         part.sample({"w": w, "input": show(mine[0]), "inputs_in_shard": len(mine), "pool": len(pool)}, limit=1)
@@ -532,9 +592,9 @@ def run(tier: str) -> int:
         "model_checking",
         rule="inputs = all E1 states of depth 1, a strided family of depth-2 states and nested If trees (depth <= 2 over 3 "
         "conditions) with operations on them; replace for every sub-AST x every same-sort partner, replace_dict maps, "
-        "canonicalize, excavate/burrow (twice, both orders) on every input; identical on all pairs of a pool; ite_cases "
+        "canonicalize (alone, and threaded with 4 partners in both orders through the returned map / counter), excavate/burrow (twice, both orders) on every input; identical on all pairs of a pool; ite_cases "
         "for all case lists of length <= 3 over 8 conditions x 6 values, reverse_ite_cases on each result, ite_dict for "
-        "key sets of size 0-6; chop / get_byte / get_bytes at widths 8, 12, 16, 24 over byte atoms; oracle = truth tables",
+        "key sets of size 0-6; chop / get_byte / get_bytes at widths 8, 12, 16, 24 over byte atoms (incl. Concats of uneven pieces); oracle = truth tables",
     )
     items = []
     if tier == "quick":
